@@ -9,7 +9,7 @@
     and the identifiers the rewrite writes into the SQL — always have the same
     length (C02_star_arity_partial), so inference and embedded text cannot drift apart
     for a star whatever the tables in scope are. *)
-From Verif Require Import Model.Compile Spec.PgScope Judge.JQ Judge.J02 Proofs.ColumnsFacts.
+From Verif Require Import Model.Compile Spec.PgScope Judge.JQ Judge.J02 Proofs.ColumnsFacts Proofs.CompileFacts2 Proofs.ArityFacts.
 Open Scope string_scope.
 Open Scope list_scope.
 
@@ -34,6 +34,21 @@ Theorem C02_ref_arity_partial : forall res tables ref alias name,
   end.
 Proof. exact column_ref_decision. Qed.
 Print Assumptions C02_ref_arity_partial.
+
+(** Whole target lists: every non-star target contributes exactly one column,
+    a star as many as identifiers it is rewritten to - so the number of inferred
+    columns equals the number of columns the rewritten target list spells out. *)
+Theorem C02_target_arity_partial : forall e tables res a,
+  target_columns e tables res = Ok a -> List.length a = sql_target_arity e tables res.
+Proof. exact target_arity. Qed.
+Print Assumptions C02_target_arity_partial.
+
+Theorem C02_statement_arity_partial : forall f e ctes n cols targets t0 ts,
+  output_columns (S f) e ctes n = Ok cols ->
+  stmt_targets n = Some targets -> items_opt targets = Some (t0 :: ts) ->
+  exists tables, source_tables f e ctes n = Ok tables /\ List.length cols = sql_arity e tables (t0 :: ts).
+Proof. exact statement_arity. Qed.
+Print Assumptions C02_statement_arity_partial.
 
 (** The known classes are real: on the faithful model a derived table doubles the row. *)
 Definition t_cat : catalog :=
